@@ -76,6 +76,10 @@ type c19Case struct {
 	DurationMs  int `json:"duration_ms,omitempty"`
 	// forced
 	Scenario string `json:"scenario,omitempty"`
+	// prosumer: a real push.Prosumer against the real Broker
+	PSteps  [][]interface{} `json:"psteps,omitempty"`  // ["sub", topic] ["push", topic, text] ["sleep", ms]
+	Welcome []string        `json:"welcome,omitempty"` // topics whose OnSubscribe publishes "welcome-<topic>" and then lingers
+	LagMs   int             `json:"lag_ms,omitempty"`  // how long OnSubscribe lingers after the welcome (latency of the subscribe answer)
 }
 
 type c19Event struct {
@@ -104,6 +108,9 @@ type c19Obs struct {
 	Race *raceObs `json:"race,omitempty"`
 	// forced
 	Forced map[string]interface{} `json:"forced,omitempty"`
+	// prosumer
+	Accepted  map[string][]string `json:"accepted,omitempty"`  // per topic: the texts whose publish reported success, in order
+	Delivered map[string][]string `json:"delivered,omitempty"` // per topic: what the subscriber's callback received, in order
 	Unsupported bool              `json:"unsupported,omitempty"`
 }
 
@@ -905,11 +912,112 @@ func c19Run(line []byte, out *json.Encoder) error {
 			runSubRace(&c, &obs)
 		case "forced":
 			runForced(&c, &obs)
+		case "prosumer":
+			runProsumer(&c, &obs)
 		default:
 			obs.Err = "unknown kind"
 		}
 	}()
 	return out.Encode(&obs)
+}
+
+// runProsumer: one real push.Prosumer (client "c1") against the real Broker over the in-process transport.
+// The script subscribes to topics one after the other while messages are published; for the topics listed in
+// Welcome the broker's OnSubscribe hook itself publishes a first message and then lingers (the subscribe answer is
+// still on its way while the message can already travel through a poll that is waiting for ANOTHER topic).
+func runProsumer(c *c19Case, obs *c19Obs) {
+	e := newEnv(c.TimeoutMs, c.HeartbeatMs)
+	defer e.close()
+	var mu sync.Mutex
+	accepted := map[string][]string{}
+	delivered := map[string][]string{}
+	welcome := map[string]bool{}
+	for _, t := range c.Welcome {
+		welcome[t] = true
+	}
+	publish := func(topic, text string) {
+		// accepted is extended BEFORE the publish can be delivered (and trimmed if it was refused), under one lock
+		// with nothing else: the order of accepted is the order of the Push calls (they are sequential per topic here)
+		mu.Lock()
+		accepted[topic] = append(accepted[topic], text)
+		mu.Unlock()
+		if !e.broker.Push(text, topic, "c1")["c1"] {
+			mu.Lock()
+			a := accepted[topic]
+			for i := len(a) - 1; i >= 0; i-- {
+				if a[i] == text {
+					accepted[topic] = append(a[:i:i], a[i+1:]...)
+					break
+				}
+			}
+			mu.Unlock()
+		}
+	}
+	e.broker.OnSubscribe = func(ctx context.Context, id string, topic string) {
+		if welcome[topic] {
+			publish(topic, "welcome-"+topic)
+			time.Sleep(time.Duration(c.LagMs) * time.Millisecond)
+		}
+	}
+	client := core.NewClient("hvpush://" + e.host + "/")
+	client.Timeout = 60 * time.Second
+	consumer := push.NewProsumer(client, "c1")
+	consumer.OnError = func(err error) {
+		mu.Lock()
+		obs.Notes = append(obs.Notes, "onerror: "+err.Error())
+		mu.Unlock()
+	}
+	for _, st := range c.PSteps {
+		op, _ := st[0].(string)
+		switch op {
+		case "sub":
+			topic, _ := st[1].(string)
+			ok, err := consumer.Subscribe(topic, func(data string) {
+				mu.Lock()
+				delivered[topic] = append(delivered[topic], data)
+				mu.Unlock()
+			})
+			if err != nil || !ok {
+				obs.Notes = append(obs.Notes, fmt.Sprintf("subscribe %s: %v %v", topic, ok, err))
+			}
+		case "push":
+			topic, _ := st[1].(string)
+			text, _ := st[2].(string)
+			publish(topic, text)
+		case "sleep":
+			ms, _ := st[1].(float64)
+			time.Sleep(time.Duration(ms) * time.Millisecond)
+		}
+	}
+	// quiescence: wait until everything accepted has been delivered, or 3 s
+	deadline := time.Now().Add(3 * time.Second)
+	for time.Now().Before(deadline) {
+		mu.Lock()
+		done := true
+		for t, a := range accepted {
+			if len(delivered[t]) < len(a) {
+				done = false
+			}
+		}
+		mu.Unlock()
+		if done {
+			break
+		}
+		time.Sleep(10 * time.Millisecond)
+	}
+	time.Sleep(60 * time.Millisecond)
+	mu.Lock()
+	obs.Accepted, obs.Delivered = map[string][]string{}, map[string][]string{}
+	for t, a := range accepted {
+		obs.Accepted[t] = append([]string{}, a...)
+	}
+	for t, d := range delivered {
+		obs.Delivered[t] = append([]string{}, d...)
+	}
+	mu.Unlock()
+	for t := range accepted {
+		consumer.Unsubscribe(t)
+	}
 }
 
 func main() {
